@@ -81,12 +81,16 @@ DeclTypes(vc) ==
 
 ------------------------------------------------------------------------------
 (* verdicts *)
+NoNoneValue == {"color", "int_from_hex"}
 Reject == [o |-> "reject"]
 AnyV == [o |-> "any"]                 \* outside the quantifier of the statement (python tuples): unconstrained
 Acc(ty, rels, time) == [o |-> "accept", ty |-> ty, ety |-> {}, kty |-> {}, n |-> -1, rels |-> rels, time |-> time]
 NoneAcc == Acc({"NoneType"}, {"none"}, FALSE)
 
-(* One element (the whole item for item type "single") against a validator v = [vc, tok, rg];       *)
+(* One element (the whole item for item type "single") against a validator v = [vc, tok, rg, nok];  *)
+(* nok = "None is a value of the declared type": every validator documents `None -> None` (optional  *)
+(* keys) except enum, where None is a value only if the enum lists `none`, and color / int_from_hex,  *)
+(* which have no None value at all.  A None result anywhere else is ill-typed.                        *)
 (* c = [sh, ec] is the element's class, ir the relation of a numeric input to the declared range.   *)
 OutOfRange(v, ir) == v.rg /\ ir \in {"below", "above", "nan"}
 JudgeScalar(v, ec, ir) ==
@@ -96,6 +100,8 @@ JudgeScalar(v, ec, ir) ==
         (CASE vc = "bool_int" -> Acc({"int"}, {"bfalse"}, FALSE)
            [] vc \in {"subconfig", "dict"} -> Acc({"dict"}, {}, FALSE)
            [] vc = "list" -> Acc({"list"}, {}, FALSE)
+           [] vc \in NoNoneValue -> Reject
+           [] vc = "enum" -> IF v.nok THEN NoneAcc ELSE Reject      \* None only if the enum has a `none` member
            [] OTHER -> NoneAcc)
     ELSE CASE vc = "str" -> Acc({"str"}, {"ident"}, FALSE)
       [] vc = "lstr" -> Acc({"str"}, {"lower"}, FALSE)
@@ -184,7 +190,8 @@ Elems(c) ==
 
 Range(f) == {f[i] : i \in DOMAIN f}
 InterAll(S) == IF S = {} THEN {} ELSE LET a == CHOOSE x \in S : TRUE IN {r \in a : \A s \in S : r \in s}
-ElemTypes(v) == DeclTypes(v.vc) \cup {"NoneType"} \cup (IF v.tok THEN {"RuntimeToken"} ELSE {})
+NoneOK(v) == v.vc \notin NoNoneValue /\ (v.vc = "enum" => v.nok)
+ElemTypes(v) == DeclTypes(v.vc) \cup (IF NoneOK(v) THEN {"NoneType"} ELSE {}) \cup (IF v.tok THEN {"RuntimeToken"} ELSE {})
 
 JudgeSeq(v, c, ir, cty, isSet) ==
     IF c.sh = "tuple3" THEN AnyV
@@ -201,7 +208,7 @@ JudgeSeq(v, c, ir, cty, isSet) ==
 
 KeyClass(sh) == CASE sh = "dict_str" -> "garbage_str" [] sh = "dict_int" -> "int_pos" [] sh = "dict_numstr" -> "num_str_int"
                   [] sh = "dict_dev" -> "dev_name"
-NoParams(vc) == [vc |-> vc, tok |-> FALSE, rg |-> FALSE]
+NoParams(vc) == [vc |-> vc, tok |-> FALSE, rg |-> FALSE, nok |-> TRUE]
 JudgeDict(kv, v, c, ir) ==
     IF c.sh = "tuple3" THEN AnyV
     ELSE IF (c.sh = "scalar" /\ c.ec \in NoneLike) \/ c.sh = "empty_dict" THEN [Acc({"dict"}, {}, FALSE) EXCEPT !.n = 0]
@@ -237,7 +244,7 @@ JudgeDefault(it, kv, v, dcl) ==
 
 (* case = [kind |-> "item", it, vc, tok, rg, kv, sh, ec, ir, dcl] *)
 JudgeItem(c) ==
-    LET v == [vc |-> c.vc, tok |-> c.tok, rg |-> c.rg]
+    LET v == [vc |-> c.vc, tok |-> c.tok, rg |-> c.rg, nok |-> c.nok]
         i == In(c.sh, c.ec)
     IN IF c.sh = "default" THEN JudgeDefault(c.it, c.kv, v, c.dcl)
        ELSE CASE c.it = "single" -> JudgeElem(v, i, c.ir)
@@ -265,8 +272,9 @@ JudgeSection(c) ==
 
 ------------------------------------------------------------------------------
 (* the case space *)
-VP(vc) == {[tok |-> t, rg |-> r] : t \in (IF vc \in TokenCapable THEN BOOLEAN ELSE {FALSE}),
-                                   r \in (IF vc \in RangeCapable THEN BOOLEAN ELSE IF vc = "gain" THEN {TRUE} ELSE {FALSE})}
+VP(vc) == {[tok |-> t, rg |-> r, nok |-> n] : t \in (IF vc \in TokenCapable THEN BOOLEAN ELSE {FALSE}),
+                                   r \in (IF vc \in RangeCapable THEN BOOLEAN ELSE IF vc = "gain" THEN {TRUE} ELSE {FALSE}),
+                                   n \in (IF vc = "enum" THEN BOOLEAN ELSE IF vc \in NoNoneValue THEN {FALSE} ELSE {TRUE})}
 KV(it) == IF it = "dict" THEN KeyVClasses ELSE IF it = "event_handler" THEN {"str"} ELSE {"na"}
 \* relation of the input to the declared range (computed by the driver from the input value and the spec string only)
 IR(rg, sh, ec) == IF ~rg THEN {"na"}
@@ -276,7 +284,7 @@ IR(rg, sh, ec) == IF ~rg THEN {"na"}
                   ELSE {"na"}
 DC(sh) == IF sh = "default" THEN {"none", "required", "value"} ELSE {"na"}
 VOf(it) == IF it = "event_handler" THEN {"ms"} ELSE VClasses
-IsItemCase(c) == /\ c.it \in ItemTypes /\ c.vc \in VOf(c.it) /\ [tok |-> c.tok, rg |-> c.rg] \in VP(c.vc) /\ c.kv \in KV(c.it)
+IsItemCase(c) == /\ c.it \in ItemTypes /\ c.vc \in VOf(c.it) /\ [tok |-> c.tok, rg |-> c.rg, nok |-> c.nok] \in VP(c.vc) /\ c.kv \in KV(c.it)
                  /\ In(c.sh, c.ec) \in Inputs /\ c.ir \in IR(c.rg, c.sh, c.ec) /\ c.dcl \in DC(c.sh)
 TimeCases == {[kind |-> "time", fn |-> f, suf |-> s, vm |-> x] : f \in {"ms", "secs"}, s \in Suffixes \cup {""}, x \in TimeVals}
 SectionCases == {[kind |-> "section", mode |-> m, allow |-> a] : m \in {"missing", "unknown", "provided"}, a \in BOOLEAN}
@@ -285,8 +293,8 @@ Judge(c) == CASE c.kind = "item" -> JudgeItem(c) [] c.kind = "time" -> JudgeTime
 NoCase == [kind |-> "none"]
 Pick(c) == /\ cur' = c /\ verdict' = Judge(c) /\ act' = [op |-> "judge", kind |-> c.kind]
 Init == cur = NoCase /\ verdict = [o |-> "none"] /\ act = [op |-> "init"]
-ItemCase(it, vc, p, k, i, r, d) == [kind |-> "item", it |-> it, vc |-> vc, tok |-> p.tok, rg |-> p.rg, kv |-> k, sh |-> i.sh,
-                                    ec |-> i.ec, ir |-> r, dcl |-> d]
+ItemCase(it, vc, p, k, i, r, d) == [kind |-> "item", it |-> it, vc |-> vc, tok |-> p.tok, rg |-> p.rg, nok |-> p.nok, kv |-> k,
+                                    sh |-> i.sh, ec |-> i.ec, ir |-> r, dcl |-> d]
 \* (the case set is never materialised: TLC's UNION of many sets is quadratic)
 Next == /\ cur.kind = "none"
         /\ \/ \E it \in ItemTypes : \E vc \in VOf(it) : \E p \in VP(vc) : \E k \in KV(it) : \E i \in Inputs :
@@ -316,9 +324,12 @@ Consistent == (cur.kind # "none" /\ cur.kind = "item") =>
     /\ (verdict.o = "accept" /\ cur.it = "single" =>
             /\ verdict.ty \subseteq DeclTypes(cur.vc) \cup {"NoneType", "RuntimeToken"}
             /\ ("RuntimeToken" \in verdict.ty => cur.tok /\ (cur.ec = "token_str" \/ cur.sh = "default"))
-            /\ ("NoneType" \in verdict.ty => cur.ec \in NoneLike \/ cur.dcl = "none" \/ cur.vc = "kivycolor"))
+            /\ ("NoneType" \in verdict.ty => cur.ec \in NoneLike \/ cur.dcl = "none" \/ cur.vc = "kivycolor")
+            /\ ("NoneType" \in verdict.ty => cur.nok))          \* e.g. an enum without a `none` member never yields None
     /\ (verdict.o = "accept" /\ cur.it \in {"list", "set"} =>
-            verdict.ty = {cur.it} /\ verdict.ety \subseteq DeclTypes(cur.vc) \cup {"NoneType", "RuntimeToken"})
+            /\ verdict.ty = {cur.it} /\ verdict.ety \subseteq DeclTypes(cur.vc) \cup {"NoneType", "RuntimeToken"}
+            /\ ("NoneType" \in verdict.ety => cur.nok))
+    /\ (verdict.o = "accept" /\ cur.it = "dict" /\ "NoneType" \in verdict.ety => cur.nok)
     /\ (verdict.o = "accept" /\ cur.it \in {"dict", "event_handler"} => verdict.ty = {"dict"})
     /\ (cur.vc = "enum" /\ cur.ec = "enum_nonmember" /\ Scalarish(cur) /\ cur.sh # "list_empty" /\ cur.it \in {"single", "list", "set"}
         => verdict.o = "reject")
